@@ -127,7 +127,7 @@ struct Sched {
   uint32_t ri_sched = 0, ri_rf = 0, ri_rnd = 0, ri_spur = 0, ri_prog = 0;
   uint32_t n_rfpoints = 0, n_rnd = 0, n_weakcas = 0;
   // solo
-  bool solo_active = false, solo_done = false;
+  bool solo_active = false, solo_done = false, solo_rebased = false;
   int solo_tid = -1;
   uint64_t solo_steps = 0, solo_bound = 4000;
   uint32_t solo_at = ~0u;
@@ -139,6 +139,8 @@ struct Sched {
   uint64_t livelock_steps = 12000;
 };
 static Sched G;
+static uintptr_t g_watch = 0; // debugging aid: --param watch=<address> prints every plain access to that word
+static bool g_trace = false;  // debugging aid: --param trace=1 prints every atomic operation of a weak-mode case
 static thread_local int t_tid = -1;
 
 static bool replaying() { return g_shm->flags & F_REPLAY; }
@@ -652,7 +654,14 @@ void point() { sched_point(); }
 uint64_t now() { return G.step; }
 int self() { return t_tid; }
 uint64_t my_steps() { return t_tid >= 0 ? G.thr[t_tid].steps : 0; }
-void concurrent_phase(bool on) { G.concurrent = on; }
+void concurrent_phase(bool on) {
+  if (on && !G.concurrent && (g_shm->flags & F_SOLO) && !G.solo_active && !G.solo_done && !G.solo_rebased) {
+    // solo mode: the switch step is counted from the start of the concurrent part (the prefix has no other threads)
+    G.solo_at += (uint32_t)G.step;
+    G.solo_rebased = true;
+  }
+  G.concurrent = on;
+}
 
 void op_begin(int lockfree) {
   if (t_tid < 0) return;
@@ -1028,6 +1037,12 @@ static void weak_load(uintptr_t a, unsigned sz, int mo, void* out) {
   }
   Msg& m = l->hist[n - 1 - back];
   memcpy(out, m.val, sz);
+  if (g_trace) {
+    uint64_t v = 0;
+    memcpy(&v, m.val, sz < 8 ? sz : 8);
+    fprintf(stderr, "T%d step %lu load  %p mo=%d -> %lx (ts %u of %u, back %u, lb %u, writer %d)\n", t_tid, (unsigned long)G.step, (void*)a, mo, (unsigned long)v, m.ts,
+            l->next_ts - 1, back, lb, (int)(signed char)m.writer);
+  }
   seen_add(l, t_tid, me.cur.c[t_tid], m.ts);
   me.acq.join(m.view);
   if (mo_acq(mo)) me.cur.join(m.view);
@@ -1047,6 +1062,12 @@ static void weak_store_msg(Loc* l, uintptr_t a, unsigned sz, int mo, const void*
   m.step = G.step;
   m.ts = l->next_ts++;
   m.writer = (uint8_t)t_tid;
+  if (g_trace) {
+    uint64_t v = 0;
+    memcpy(&v, val, sz < 8 ? sz : 8);
+    fprintf(stderr, "T%d step %lu store %p mo=%d <- %lx (ts %u)%s view[%u %u %u %u %u]\n", t_tid, (unsigned long)G.step, (void*)a, mo, (unsigned long)v, m.ts,
+            rs_view ? " rmw" : "", m.view.c[0], m.view.c[1], m.view.c[2], m.view.c[3], m.view.c[4]);
+  }
   l->hist.push(m);
   memcpy((void*)a, val, sz);
   seen_add(l, t_tid, me.cur.c[t_tid], m.ts);
@@ -1073,6 +1094,7 @@ static Msg& weak_rmw_read(Loc* l, int mo) {
 
 static void weak_fence(int mo) {
   Thr& me = G.thr[t_tid];
+  if (g_trace) fprintf(stderr, "T%d step %lu fence mo=%d\n", t_tid, (unsigned long)G.step, mo);
   if (mo == 2 || mo == 1 || mo == 4 || mo == 5) me.cur.join(me.acq);
   if (mo == 5) {
     me.cur.join(G.scv);
@@ -1131,9 +1153,15 @@ void check_access(const void* p, size_t n, bool write) {
   if (weak() && x - A0 < A0_SIZE && t_tid >= 0) race_access(x, n, write);
 }
 
+static void watch_print(const char* what, uintptr_t x, size_t n) {
+  Thr& me = G.thr[t_tid < 0 ? 0 : t_tid];
+  fprintf(stderr, "watch: step %lu thread %d %s %zu bytes at %p clock [%u %u %u %u %u]\n", (unsigned long)G.step, t_tid, what, n, (void*)x, me.cur.c[0], me.cur.c[1],
+          me.cur.c[2], me.cur.c[3], me.cur.c[4]);
+}
 static inline void plain_access(void* p, size_t n, bool write) {
   if (!g_active) return;
   uintptr_t x = (uintptr_t)p;
+  if (g_watch && x <= g_watch && g_watch < x + n) watch_print(write ? "plain write" : "plain read", x, n);
   if (x - A0 < A0_SIZE) {
     shadow_check(x, n, write, "plain");
     if (t_tid < 0) return;
@@ -1483,6 +1511,8 @@ void case_begin(Shm* shm) {
   G.spin_limit = (uint32_t)param("spin_limit", 48);
   G.seq_op_cap = param("seq_op_cap", 300000);
   G.livelock_steps = param("livelock_steps", 12000);
+  g_watch = (uintptr_t)param("watch", 0);
+  g_trace = param("trace", 0) != 0;
   t_tid = 0;
   G.cur = 0;
   Thr& m = G.thr[0];
@@ -1524,6 +1554,7 @@ void case_begin(Shm* shm) {
   } else {
     G.strategy = (int)s->in.strategy;
     G.solo_at = s->in.solo_at;
+    G.solo_rebased = true; // recorded switch steps are absolute
   }
   g_active = true;
 }
